@@ -64,6 +64,7 @@ func TestVerifC20Mapper(t *testing.T) {
 		}
 		for w := 0; w < workers; w++ {
 			wr := rand.New(rand.NewSource(vhfsSeed()*7919 + int64(round*100+w)))
+			wi := w
 			wg.Add(1)
 			go func() {
 				defer wg.Done()
@@ -73,6 +74,13 @@ func TestVerifC20Mapper(t *testing.T) {
 					bars[i].Done()
 					bars[i].Wait()
 					local = append(local, [3]uint64{uint64(k.m), k.s, ms[k.m].QIDFor(p9.QID{Path: k.s}).Path})
+				}
+				// every worker on ITS OWN Mapper (when there are several), all allocating fresh paths at the same moment:
+				// the Mappers' mutexes do not order these calls, only the shared PathGenerator does
+				for i := 0; i < 60 && nm > 1; i++ {
+					m := wi % nm
+					s := 1000000 + uint64(wi)*1000 + uint64(i)
+					local = append(local, [3]uint64{uint64(m), s, ms[m].QIDFor(p9.QID{Path: s}).Path})
 				}
 				for i := 0; i < 50; i++ {
 					m := wr.Intn(nm)
